@@ -391,15 +391,17 @@ func (r *transport) calculateFreshness(
 	switch {
 	case !ok:
 		return freshness, false
-	case reqMaxAge == 0:
-		// The calculator short-circuits max-age=0 without computing the age and
-		// the lifetime of the stored response; both are needed for the Age
-		// field and the stale-if-error window, so compute them without it.
+	case reqMaxAge != 0 && !(freshness.IsStale && freshness.Age.Value >= reqMaxAge):
+		return freshness, false
+	default:
+		// An exceeded request max-age forces validation; it does not shorten
+		// the lifetime the stale-if-error window is measured from, whatever its
+		// value. (For max-age=0 the calculator short-circuits without computing
+		// the age and the lifetime at all.) Both are needed for the Age field
+		// and the window, so compute them without the request's max-age.
 		ccReq = maps.Clone(ccReq)
 		delete(ccReq, "max-age")
 		return r.fc.CalculateFreshness(stored, ccReq, ccResp), true
-	default:
-		return freshness, freshness.IsStale && freshness.Age.Value >= reqMaxAge
 	}
 }
 
